@@ -224,7 +224,7 @@ def handleSpecHcond (args : List Bytes) : String :=
       | some (k, v) =>
         match rxFFI p v with
         | .ok groups => s!"MATCH {toHex k} {toHex v} " ++ String.intercalate "+" (groups.map fun g =>
-            match g with | none => "-/-" | some (a, b) => s!"{a}/{b}")
+            match g with | none => "x/x" | some (a, b) => s!"{a}/{b}")
         | _ => "ERROR"
   | _ => "BADOP"
 
@@ -621,6 +621,15 @@ def handleMsg (side op : String) (args : List Bytes) : Option String :=
   | "M", "ctype", [] => some ctypeTable
   | "M", "eval", as => some (handleEval as)
   | "M", "inspect", as => some (handleInspect as)
+  | "M", "regex", [pat, flags, subject] =>
+    -- the platform regex library under the driver's locale: `regex <pattern> <flags ascii: i or -> <subject>`
+    let p : Model.Pat := { src := pat, icase := flags.contains 105 }
+    some (if !rxOkFFI p then "BADPATTERN" else
+      match rxFFI p subject with
+      | .ok groups => "MATCH " ++ String.intercalate "+" (groups.map fun g =>
+          match g with | none => "x/x" | some (a, b) => s!"{a}/{b}")
+      | .nomatch => "NOMATCH"
+      | .error => "ERROR")
   | "M", "locale", [x] => some (let r := localeInfoFFI x.length.toUInt32; s!"{r >>> 8} {r &&& 255}")
   | "M", "conform", as => some (handleConform as)
   | "M", "conformtext", as => some (handleConformText as)
